@@ -87,7 +87,7 @@ STUBBED = ["connection and ofp_packet_in objects handed to PacketIn "
 EXPECT_PROBES = ["mode_trunc", "mode_byte", "mode_bytefix", "mode_truncfix",
                  "mode_random", "early_stop", "chain_changed",
                  "pristine_ok", "grammar_dhcp", "grammar_tcpopt",
-                 "grammar_lldp", "grammar_dns", "grammar_ndp",
+                 "grammar_lldp", "grammar_dns", "grammar_ndp", "grammar_nest",
                  "grammar_wellformed_fully_parsed"]
 
 _PKT_DIR = os.path.join("pox", "lib", "packet") + os.sep
@@ -1322,8 +1322,13 @@ def _g_lldp(r, hostile):
     if st == 4 or (t == 2 and st == 3):
       n = 6
     if st == 5:
-      n = r.pick([5, 17])
-      return _tlv(t, bytes([st, 1 if n == 5 else 2]) + r.randbytes(n - 1))
+      # network address: a family octet and an address -- of the length the
+      # family calls for, or (a sloppy or hostile sender) of any other
+      n = r.pick([5, 17, 5, 17, 1, 4, 8, 17, 255])
+      fam = 1 if n == 5 else 2
+      if r.chance(0.4):
+        fam = r.pick([1, 1, 2, 6, 0])
+      return _tlv(t, bytes([st, fam]) + r.randbytes(n - 1))
     return _tlv(t, bytes([st]) + r.randbytes(n))
   tl = [ident(1), ident(2), _tlv(3, r.randbytes(2))]
   if hostile and r.chance(0.5):
@@ -1618,7 +1623,48 @@ def _g_gre(r, hostile):
   return _eip(47, _gre(flags, proto, inner, **kw))
 
 
-_GRAMMARS = [("gre", _g_gre), ("dhcp", _g_dhcp), ("tcpopt", _g_tcp), ("ip4opt", _g_ip4opts),
+def _g_nest(r, hostile):
+  """headers nested as deep as the frame is long: runs of VLAN tags broken
+  up by SNAP headers, tunnels in tunnels, ICMP errors quoting ICMP errors --
+  up to jumbo-frame sizes (a packet_in can carry 64 KiB)"""
+  size = r.wpick([(3, 400), (4, 1514), (2, 4000), (3, 9000), (1, 20000)])
+  mix_ = r.pick([["vlansnap"], ["vlansnap"], ["gre"], ["greeth"], ["unreach"],
+                 ["vxlan"], ["unreach6"],
+                 ["gre", "unreach", "vxlan", "greeth"]])
+  v6 = mix_ == ["unreach6"]
+  cur = _ip6(17, _udp6(1, 2, b"x")) if v6 else _ip4(17, _udp(1, 2, b"x"))
+  if hostile and r.chance(0.5):
+    cur = r.randbytes(r.pick([0, 1, 8, 20]))
+  if mix_ == ["vlansnap"]:
+    et, out = (0x86dd if v6 else 0x0800), cur
+    while len(out) + 14 + 72 <= size:
+      for _ in range(r.pick([1, 3, 15, 15, 16, 17])):
+        out = _be16(r.pick([0, 1, 100, 4095])) + _be16(et) + out
+        et = 0x8100
+      out = b"\xaa\xaa\x03\0\0\0" + _be16(et) + out
+      out = _be16(1) + _be16(min(len(out), 1500)) + out
+      et = 0x8100
+    return F.eth(M2, M1, et, out)
+  while True:
+    k = r.pick(mix_)
+    if k == "gre":
+      new = _ip4(47, _gre(0, 0x0800, cur))
+    elif k == "greeth":
+      new = _ip4(47, _gre(0, 0x6558, F.eth(M2, M1, F.ETH_IP, cur)))
+    elif k == "unreach":
+      new = _ip4(1, F.icmp(3, r.pick([0, 1, 3, 4]), b"\0\0\0\0" + cur))
+    elif k == "vxlan":
+      new = _ip4(17, _udp(4789, 4789, struct.pack("!II", 0x08000000, 7 << 8)
+                          + F.eth(M2, M1, F.ETH_IP, cur)))
+    else:
+      new = _ip6(58, _icmp6(1, 0, b"\0\0\0\0" + cur))
+    if len(new) + 14 > size:
+      break
+    cur = new
+  return F.eth(M2, M1, 0x86dd if v6 else F.ETH_IP, cur)
+
+
+_GRAMMARS = [("nest", _g_nest), ("gre", _g_gre), ("dhcp", _g_dhcp), ("tcpopt", _g_tcp), ("ip4opt", _g_ip4opts),
              ("lldp", _g_lldp), ("ndp", _g_ndp), ("dns", _g_dns),
              ("igmp3", _g_igmp3), ("ip6ext", _g_ip6ext), ("stack", _g_stack),
              ("rip", _g_rip)]
@@ -1627,7 +1673,10 @@ _GRAMMARS = [("gre", _g_gre), ("dhcp", _g_dhcp), ("tcpopt", _g_tcp), ("ip4opt", 
 def grammar_case(r):
   name, fn = r.pick(_GRAMMARS)
   hostile = r.chance(0.33)
-  return fn(r, hostile)[:1514], name + ("!" if hostile else "")
+  b = fn(r, hostile)
+  if name != "nest":
+    b = b[:1514]
+  return b, name + ("!" if hostile else "")
 
 
 def random_case(stepseed, j):
